@@ -7,7 +7,7 @@
    interleaving of their atomic steps. *)
 From Coq Require Import List NArith ZArith Bool.
 From Coq Require Import Permutation.
-From Pika Require Import Base.Conc Model.Sender Model.Handoff Model.SenderLedger Proofs.SenderProofs Proofs.HandoffProofs Proofs.SenderLedgerProofs.
+From Pika Require Import Base.Conc Model.Sender Model.Handoff Model.SenderLedger Model.HandoffLife Model.JoinAccess Proofs.SenderProofs Proofs.HandoffProofs Proofs.SenderLedgerProofs Proofs.SenderNoUseProofs Proofs.HandoffLifeProofs Proofs.JoinAccessProofs.
 Import ListNotations.
 
 (* ---------------------------------------------------------------- Part 1: pipelines *)
@@ -142,6 +142,57 @@ Example C03_example_ledger :
    | None => false end) = true.
 Proof. vm_compute. repeat split. Qed.
 
+(* ---------------------------------------------------------------- Part 1c: no use after signal
+   What the boolean monitor [nouse_ok] (evaluated by the driver on every generated case) means:
+   whatever follows [Sg q c] (the operation at q has called its receiver) in a trace does not
+   read / write a member of, or construct into, an operation state in the subtree of q
+   ([touch]: Acc, New of a kind that lives inside an operation state; destruction by the owner,
+   stack objects and shared states are not touches), and whatever follows the destruction of the
+   shared state of p neither accesses it (AccSh), nor copies / releases a reference to it, nor
+   stores its variant.  Accesses to a shared state after a consumer has signalled are allowed
+   exactly as long as the state has not been destroyed, i.e. while a counted reference is held
+   (C03_ledger_balanced: the state is destroyed by the release that brings the count to 0). *)
+Theorem C03_nouse_ok_spec : forall l, nouse_ok l = true <->
+  (forall l1 q c l2, l = l1 ++ Sg q c :: l2 -> forall e q', In e l2 -> touch e = Some q' -> ~ under q q') /\
+  (forall l1 p l2, l = l1 ++ Del (p, KShared) :: l2 -> forall e, In e l2 -> ~ shared_use p e).
+Proof. exact nouse_ok_spec. Qed.
+Print Assumptions C03_nouse_ok_spec.
+
+(* every well-formed pipeline, both destruction modes (rd = true: the terminal receiver destroys
+   the operation state inside set_xxx; rd = false: the owner after start() returned), all
+   channels, arbitrary callables: the evaluator's trace has no use after signal *)
+Theorem C03_no_use_after_signal : forall t, wfl t -> forall rd,
+  exists r, lrun t [] = Some r /\ sigs t = [Sig (n_c r)] /\ nouse_ok (ltrace rd r) = true.
+Proof. exact no_use_after_signal. Qed.
+Print Assumptions C03_no_use_after_signal.
+
+(* ... in fact at every position of the operation-state tree and for every term on which the
+   evaluator is defined (no well-formedness needed for this half) *)
+Theorem C03_no_use_after_signal_at : forall t p r rd, lrun t p = Some r -> nouse_ok (ltrace rd r) = true.
+Proof. exact ltrace_nouse_ok. Qed.
+Print Assumptions C03_no_use_after_signal_at.
+
+(* the terminal receiver is the root's signal: after it nothing touches any operation state *)
+Theorem C03_no_touch_after_term : forall t p r rd, lrun t p = Some r ->
+  exists l2, ltrace rd r = n_con r ++ n_pre r ++ Term (n_c r) :: l2 /\ forall e, In e l2 -> touch e = None.
+Proof. exact no_touch_after_term. Qed.
+Print Assumptions C03_no_touch_after_term.
+
+(* non-vacuity: the monitor rejects a member access after the signal, an access to a destroyed
+   shared state, accepts destruction after the signal; and a pipeline mixing every kind of node *)
+Example C03_example_nouse :
+  nouse_ok [Acc [0]; Sg [0] (CVal []); Acc [0]] = false /\
+  nouse_ok [Sg [0] (CVal []); New ([1; 0], KVals 0)] = false /\
+  nouse_ok [Sg [0] (CVal []); Acc []; Del ([0], KState); Acc [1]] = true /\
+  nouse_ok [RefInc []; AccSh []; RefDec []; Del ([], KShared); AccSh []] = false /\
+  (let inc : fn := fun vs => inl (map N.succ vs) in
+   let t := WhenAllVector [SplitTuple (Then inc (Just [1%N; 2%N])); EnsureStarted (Split 3 (Erased (JustErr 4%N)));
+                           LetError (fun _ => None) (fun e => DropOpState (ContinuesOn SchedOk (Just [e]))) (JustErr 3%N)] in
+   match ledger true t, ledger false t with
+   | Some tr1, Some tr2 => nouse_ok tr1 && nouse_ok tr2 && (10 <? length tr1)
+   | _, _ => false end) = true.
+Proof. vm_compute. repeat split. Qed.
+
 (* ---------------------------------------------------------------- Part 2: concurrent hand-off and join *)
 (* split / ensure_started / split_tuple (kind k), predecessor completing with c on thread 0,
    every other thread a consumer, every schedule: in every reachable state no consumer has
@@ -224,3 +275,105 @@ Example C03_example_join :
   w_out (fst (w_run 3 cs (map u [0; 1; 2; 1; 2; 0; 0; 2; 1]))) = [(1, Sig (CErr 5%N))] /\
   w_out (fst (w_run 3 cs (map u [0; 1; 2; 1; 2; 0; 0; 2]))) = [].
 Proof. vm_compute. repeat split. Qed.
+
+(* ---------------------------------------------------------------- Part 2b: lifetime of the shared state
+   (Model/HandoffLife.v: a ghost layer over h_tstep — reference count, alive flag, who released,
+   every read of the variant, every access to a dead state; n connected consumer operation
+   states; the oracle says which receivers destroy their operation state inside the signal.)
+   The ghost layer does not change the hand-off model: *)
+Theorem C03_handoff_life_erase : forall k c n sched, (forall x, In x sched -> fst x <= n) ->
+  fst (fst (hl_run k c n sched)) = fst (h_run k c (map (fun x : nat * (nat -> bool) => (fst x, tt)) sched)) /\
+  (forall t, fst (snd (hl_run k c n sched) t) = snd (h_run k c (map (fun x : nat * (nat -> bool) => (fst x, tt)) sched)) t).
+Proof. exact hl_erase. Qed.
+Print Assumptions C03_handoff_life_erase.
+
+(* split / ensure_started / split_tuple, any completion, any number n of consumers, every
+   schedule and every choice of receivers that destroy their operation state inside the signal:
+   (a) the variant is read only after it was stored and predecessor_done set, only while the
+       shared state is alive, by the consumer itself or by the predecessor thread on its behalf;
+   (b) the shared state (with the variant) is destroyed only when the count is 0, after EVERY
+       consumer has been signalled and has released, and (split / ensure_started) after the
+       predecessor's receiver copy r was released at the end of set_predecessor_done;
+   (c) a consumer's reference is released only after it was signalled; the count is exact. *)
+Theorem C03_handoff_value_outlives : forall k c n sched,
+  let g := fst (fst (hl_run k c n sched)) in
+  let lf := snd (fst (hl_run k c n sched)) in
+  let ls := snd (hl_run k c n sched) in
+  (forall cn b st dn al, In (cn, b, st, dn, al) (l_reads lf) ->
+      st = true /\ dn = true /\ al = true /\ (b = cn \/ b = 0) /\ 1 <= cn <= n) /\
+  (l_alive lf = false ->
+      l_rc lf = 0 /\
+      (forall cn, 1 <= cn <= n -> In cn (consumers g) /\ In cn (l_rel lf)) /\
+      (holds_ref k = true -> In 0 (l_rel lf) /\ fst (ls 0) = PEnd)) /\
+  ((forall cn, cn <> 0 -> In cn (l_rel lf) -> In cn (consumers g)) /\
+   NoDup (l_rel lf) /\
+   l_rc lf + length (l_rel lf) = n + (if holds_ref k then 1 else 0)).
+Proof. exact handoff_value_outlives. Qed.
+Print Assumptions C03_handoff_value_outlives.
+
+(* split, ensure_started (the predecessor's receiver carries an intrusive_ptr, kept in the stack
+   copy r until set_predecessor_done has returned): no member of the shared state is ever
+   accessed after the state was destroyed *)
+Theorem C03_handoff_state_outlives : forall k c n sched, holds_ref k = true ->
+  l_bad (snd (fst (hl_run k c n sched))) = [].
+Proof. exact handoff_state_outlives. Qed.
+Print Assumptions C03_handoff_state_outlives.
+
+(* split_tuple: its receiver holds a plain `shared_state&`.  Full statement would be the one
+   above for HTuple; it is false in the faithful model (next theorem).  What holds: only the
+   predecessor thread's lock_guard (P2) and its read of `continuations` (P3) can touch a destroyed
+   state — never a consumer, never the emplace of v or the store to predecessor_done. *)
+Theorem C03_handoff_tuple_state_partial : forall c n sched e,
+  In e (l_bad (snd (fst (hl_run HTuple c n sched)))) -> e = (0, P2) \/ e = (0, P3).
+Proof. exact handoff_tuple_state_partial. Qed.
+Print Assumptions C03_handoff_tuple_state_partial.
+
+(* witness: 2 consumers; consumer 1 starts the predecessor, which completes on another thread:
+   v stored, predecessor_done = true; consumers 1 and 2 see the flag, signal themselves, their
+   receivers destroy the operation states -> count 0, shared state freed; the predecessor thread
+   then executes `std::lock_guard l{mtx}` (and reads `continuations`) in freed memory *)
+Theorem C03_handoff_tuple_state_refuted :
+  exists n sched, In (0, P2) (l_bad (snd (fst (hl_run HTuple (CVal [1%N; 2%N]) n sched)))).
+Proof. exact handoff_tuple_state_refuted. Qed.
+Print Assumptions C03_handoff_tuple_state_refuted.
+
+(* non-vacuity: split, two consumers whose receivers destroy the operation states inside the
+   signal — the state survives the continuation loop through r and dies with r's release;
+   split_tuple with a stored continuation: alive through P2 / P3, dies inside the last continuation *)
+Example C03_example_life :
+  let st := hl_run HSplit (CVal [7%N]) 2 (with_oracle (fun _ => true) [1; 1; 1; 1; 2; 2; 2; 2; 0; 0; 0; 0]) in
+  l_bad (snd (fst st)) = [] /\ l_alive (snd (fst st)) = false /\ l_rel (snd (fst st)) = [0; 2; 1] /\
+  l_reads (snd (fst st)) = [(2, 0, true, true, true); (1, 0, true, true, true)] /\
+  (let st2 := hl_run HTuple (CVal [1%N; 2%N]) 2 (with_oracle (fun _ => true) [1; 1; 1; 1; 0; 0; 2; 2; 2; 0; 0]) in
+   l_bad (snd (fst st2)) = [] /\ l_alive (snd (fst st2)) = false /\ l_rel (snd (fst st2)) = [1; 2]).
+Proof. vm_compute. repeat split. Qed.
+
+(* ---------------------------------------------------------------- Part 2c: the join's slots
+   (Model/JoinAccess.v: ghost access log over w_tstep, newest first: AFlag = a child's access to
+   the flag + store into its value slot / the error slot, ADec = the decrement, AFinish =
+   finish()'s read of flag, error slot and value slots for the final completion.)  Ghost-only: *)
+Theorem C03_join_access_erase : forall n cs sched,
+  fst (fst (wa_run n cs sched)) = fst (w_run n cs sched) /\
+  (forall t, snd (wa_run n cs sched) t = snd (w_run n cs sched) t).
+Proof. exact wa_erase. Qed.
+Print Assumptions C03_join_access_erase.
+
+(* every child count, completions, schedule: wherever the final read of the slots occurs in the
+   access log it is the newest entry (nothing of the operation state is touched afterwards — the
+   receiver may destroy it), it occurs once, every child's decrement (hence every child's slot
+   store) is older, every child thread has finished, and the signal has been delivered *)
+Theorem C03_when_all_slots_outlive : forall n cs sched,
+  let log := snd (fst (wa_run n cs sched)) in
+  let ls := snd (wa_run n cs sched) in
+  forall newer t older, log = newer ++ (t, AFinish) :: older ->
+    newer = [] /\ (forall u, ~ In (u, AFinish) older) /\ (forall u, u < n -> In (u, ADec) older) /\
+    (forall u, u < n -> ls u = WEnd) /\ w_out (fst (fst (wa_run n cs sched))) <> [].
+Proof. exact when_all_slots_outlive. Qed.
+Print Assumptions C03_when_all_slots_outlive.
+
+Example C03_example_join_access :
+  let u := fun t => (t, tt) in
+  let cs := fun t => match t with 0 => CVal [1%N] | 1 => CErr 5%N | _ => CStopped end in
+  snd (fst (wa_run 3 cs (map u [0; 1; 2; 2; 1; 0; 0; 1; 2; 2; 0]))) =
+    [(2, AFinish); (2, ADec); (1, ADec); (0, ADec); (0, AFlag); (1, AFlag); (2, AFlag)].
+Proof. vm_compute. reflexivity. Qed.
